@@ -205,6 +205,10 @@ theorem step_inv {a b : LConfig} (hs : LStepRel userCollector a b) (hi : Inv a) 
         · exact others_ok ht rfl x (Or.inr hx)
     · -- ret: no step
       simp [lstep, userCollector, hpc] at h
+  | envRLock sh ths hw =>
+    exact ⟨hi.w, fun x hx => T_congr rfl (hi.t x hx)⟩
+  | envRUnlock sh ths he =>
+    exact ⟨hi.w, fun x hx => T_congr rfl (hi.t x hx)⟩
 
 theorem reach_inv {a b : LConfig} (hr : LReach userCollector a b) (hi : Inv a) : Inv b := by
   induction hr with
@@ -247,6 +251,8 @@ theorem entry_stable {a b : LConfig} (hs : LStepRel userCollector a b) (hi : Inv
       rw [h8.1] at he; simp at he
     · simp [lstep, userCollector, hpc] at h; obtain ⟨rfl, rfl⟩ := h; exact he
     · simp [lstep, userCollector, hpc] at h
+  | envRLock sh ths hw => exact he
+  | envRUnlock sh ths hx => exact he
 
 theorem reach_entry {a b : LConfig} (hr : LReach userCollector a b) (hi : Inv a) (r : Nat)
     (he : a.sh.entry = some r) : b.sh.entry = some r := by
